@@ -166,7 +166,7 @@ def run(ck, w):
     errs = [e for e in rb.events if e.bb in rb.live and (e.callee or "").endswith("Monitor::error")]
     added = events_of(lib, rb, "change::EntryChange::added")
     nxt = events_of(lib, rb, "index::stitch::Stitch::next")
-    ck.floor("C10.3b.n", "per-entry error reports in restore()", len(errs), 4)
+    ck.floor("C10.3b.n", "per-entry error reports in restore()", len(errs), 1)
     if added and nxt:
         loop_head = {e.bb for e in nxt}
         bad = []
@@ -182,6 +182,45 @@ def run(ck, w):
             ck.ok(o, "%d error arm(s) skip the callback" % len(errs), instances=len(errs))
     else:
         ck.ok(o, "no change callback in restore()", instances=0)
+    o = ck.ob("C10.3k", "restore(): an entry whose decoded kind is Unknown is reported (directly, or as an Err that is then reported), never skipped silently")
+    kadt = lib.adts.get("kind::Kind")
+    unknown_idx = [i for i, v in enumerate(kadt["variants"]) if v["name"] == "Unknown"][0] if kadt else None
+    unk_edges = set()
+    for bb_ in sorted(rb.live):
+        t_ = rb.blocks[bb_]["term"]
+        if t_["tk"] != "switch":
+            continue
+        dl_ = flow.operand_local(t_["discr"])
+        for st_ in reversed(rb.blocks[bb_]["stmts"]):
+            if st_["sk"] == "assign" and st_["pl"]["l"] == dl_ and st_["rv"]["rk"] == "discr" and "kind::Kind" in (rb.locals[st_["rv"]["pl"]["l"]] or ""):
+                arms_ = {int(a[0]): a[1] for a in t_["arms"]}
+                tgt_ = arms_.get(unknown_idx, t_["otherwise"])
+                if tgt_ is not None:
+                    unk_edges.add((bb_, tgt_))
+            break
+    if not unk_edges or not nxt:
+        ck.fail(o, rb.name, "anchor-missing", "no switch on the entry's Kind (or no Stitch::next loop) in restore()")
+    else:
+        class _Site:      # an `Err(..)` value built in the arm, looked at like the result of a call
+            def __init__(self, bb, st):
+                self.bb, self.dest, self.args, self.name, self.callee = bb, st["pl"], [], "Err", None
+        problems = []
+        err_bbs = {e.bb for e in errs}
+        for (u_, v_) in sorted(unk_edges):
+            aggs_ = [(bb, st) for bb, j, st in rules.agg_sites(rb, "std::result::Result", "Err")
+                     if not st["pl"]["p"] and st["pl"]["l"] != 0 and rb.must_pass_edges({(u_, v_)}, bb)]
+            reach = rb.reachable(v_, removed_nodes=err_bbs | {bb for bb, st in aggs_})
+            if any(n.bb in reach for n in nxt) or any(r in reach for r in rb.return_blocks()):
+                problems.append("a path from the Unknown arm reaches the next entry (or returns) with nothing reported")
+            for bb, st in aggs_:
+                f_ = err.classify(rb, _Site(bb, st)).fate
+                if f_ not in ("reported", "propagated"):
+                    problems.append("the Err built for an Unknown entry is %s" % f_)
+        if problems:
+            for m_ in sorted(set(problems)):
+                ck.fail(o, rb.name, m_.split(" (")[0], m_)
+        else:
+            ck.ok(o, "%d Kind switch(es)" % len(unk_edges), instances=len(unk_edges))
     o = ck.ob("C10.3c", "restore(): failures of restore_file / restore_symlink / restore_dir are reported and the loop continues")
     fates = {}
     for fn in ("restore::restore_file", "restore::restore_symlink", "restore::restore_dir"):
